@@ -567,7 +567,7 @@ fn count_kind(pending: &Vec<Spanned>, f: fn(&Tok) -> bool) -> usize {
     n
 }
 
-// @verif name=lex_indentation props=C05,C03,C04,C08,C09,C10 tier=quick timeout=600 fns="Lexer::handle_indentations,Lexer::eat_indentation,Lexer::lex_comment,Indentations::push,Indentations::pop,Indentations::current,IndentationLevel::compare_strict"
+// @verif name=lex_indentation props=C05,C03,C04,C08,C09,C10 tier=quick timeout=900 fns="Lexer::handle_indentations,Lexer::eat_indentation,Lexer::lex_comment,Indentations::push,Indentations::pop,Indentations::current,IndentationLevel::compare_strict"
 //   bound="at begin of line; continuation: at most 3 arbitrary Unicode characters; indentation stack of depth 1..3 (levels < 1000) satisfying the stack invariant; nesting 0..2; every start < 2^31"
 #[kani::proof]
 #[kani::unwind(6)]
@@ -789,7 +789,7 @@ fn verif_lex_string_unreachable<T: Iterator<Item = char>>(_lx: &mut Lexer<T>, _k
     panic!("lex_string reached")
 }
 
-// @verif name=lex_unrecognized props=C05,C03,C04,C09 tier=quick timeout=600 fns="Lexer::consume_character (fall-through arm),unic_emoji_char::is_emoji_presentation"
+// @verif name=lex_unrecognized props=C05,C03,C04,C09 tier=quick timeout=900 fns="Lexer::consume_character (fall-through arm),unic_emoji_char::is_emoji_presentation"
 //   bound="every Unicode scalar that is not an ASCII letter/digit/underscore, quote, operator, blank, line break, backslash or #; 2 arbitrary following characters; every start < 2^31"
 //   stubs="Lexer::lex_number, Lexer::lex_string -> panic (proved unreachable for these characters)"
 #[kani::proof]
